@@ -24,7 +24,7 @@ def mutOf : String → Option Mutator
   | _ => none
 
 /-- `guard <route index> <hasSession> <active> <developer> <isAuth> <member> <owner> <batchIdOk>` → `<METHOD> <path> <outcome> <class>`;
-`mut <mutator> <isOwner> <tokenKnown> <emptyPayload>` → `<ok|error> <changed|unchanged>`; `count` → number of routes -/
+`mut <mutator> <isOwner> <tokenKnown> <emptyPayload> <namesake>` → `<ok|error> <changed|unchanged>`; `list <memberOrOwner> <namesake>` → `listed|hidden`; `count` → number of routes -/
 def handle (line : String) : String :=
   match words line with
   | ["count"] => toString Generated.BatchRoutes.routes.length
@@ -37,12 +37,17 @@ def handle (line : String) : String :=
         s!"{showMethod r.method} {r.path} {showOutcome (decision r.decorators r.isApi cl)} {showClass (required r.method r.segs)}"
       | none => "no-such-route"
     | _, _, _, _, _, _, _, _ => "bad-op"
-  | ["mut", m, a, b, c] =>
-    match mutOf m, bit a, bit b, bit c with
-    | some m, some a, some b, some c =>
-      let r := mutate m { isOwner := a, tokenKnown := b, emptyPayload := c }
+  | ["mut", m, a, b, c, d] =>
+    match mutOf m, bit a, bit b, bit c, bit d with
+    | some m, some a, some b, some c, some d =>
+      let r := mutate m { isOwner := a, tokenKnown := b, emptyPayload := c, namesake := d }
       s!"{if r.ok then "ok" else "error"} {if r.changed then "changed" else "unchanged"}"
-    | _, _, _, _ => "bad-op"
+    | _, _, _, _, _ => "bad-op"
+  | ["list", a, b] =>
+    match bit a, bit b with
+    | some a, some b => if listed a b then "listed" else "hidden"
+    | _, _ => "bad-op"
+  | ["filtercol"] => Generated.BatchRoutes.userCanAccessColumn
   | _ => "bad-op"
 
 def main : IO Unit := mapLines handle
